@@ -9,6 +9,10 @@ The correspondence with `encoding/json` and with the real transport (`ociauth.Ne
 scripted registry and token server) is checked by differential execution (`harness/c10t.go`); the
 theorems below are about the model. `expires_in` is an `Int` here: Go accepts negative values, and the
 code multiplies in `int64` nanoseconds — see "Lifetimes" for what that does.
+-- F41: the code now clamps the number of seconds before it multiplies; the statements that documented the
+-- wrap (`lifetime_wraps_beyond_int64_nanoseconds`, `negative_lifetime_beyond_int64_is_reused`,
+-- `huge_lifetime_is_not_reused`) are false of it and are replaced by `lifetime_saturates`,
+-- `negative_lifetime_never_reused`, `huge_lifetime_is_reused`; what they said is kept as `…_before_F41`.
 -/
 import OciModel.TokenDecodeLemmas
 import OciModel.Generated.WireToken
@@ -259,18 +263,28 @@ theorem later_request_sees_token_iff (st : RegSt) (w : WireToken) (now now2 : In
   simp only [prune, (success_caches_one_token st w now ha).2, List.filter_append]
   by_cases h : now2 + second ≤ now + lifetimeNs w.expiresIn <;> simp [List.filter, alive, h]
 
-/-- NEGATIVE `expires_in` (down to −9223372036): the token is stored ALREADY EXPIRED — and still returned
+-- F41: was stated only down to −9223372036 (`hlo : -9223372036 ≤ w.expiresIn`), and was FALSE below
+-- (`negative_lifetime_beyond_int64_was_reused_before_F41`); replaces `negative_lifetime_beyond_int64_is_reused`
+/-- EVERY negative `expires_in`, of any magnitude: the token is stored ALREADY EXPIRED — and still returned
 for immediate use: the retried request carries it once; no later request (at any time from the
 acquisition on) ever finds it in the cache. -/
-theorem negative_lifetime_used_once (st : RegSt) (w : WireToken) (now : Int) (ha : pickAccess w ≠ [])
-    (hneg : w.expiresIn < 0) (hlo : -9223372036 ≤ w.expiresIn) :
+theorem negative_lifetime_never_reused (st : RegSt) (w : WireToken) (now : Int) (ha : pickAccess w ≠ [])
+    (hneg : w.expiresIn < 0) :
     (consume st w now).2 = .ok (pickAccess w) ∧
     ∀ now2, now ≤ now2 → (prune now2 (consume st w now).1).toks = (prune now2 st).toks := by
   refine ⟨(success_caches_one_token st w now ha).1, ?_⟩
   intro now2 hle
-  rw [later_request_sees_token_iff st w now now2 ha, lifetimeNs_exact w.expiresIn (by omega) hlo (by omega)]
-  have : ¬ (now2 + second ≤ now + w.expiresIn * second) := by unfold second; omega
+  rw [later_request_sees_token_iff st w now now2 ha]
+  have hl := lifetimeNs_neg w.expiresIn hneg
+  have : ¬ (now2 + second ≤ now + lifetimeNs w.expiresIn) := by unfold second at hl ⊢; omega
   simp [this]
+
+/-- The statement as it stood before F41 (the bound is not needed any more). -/
+theorem negative_lifetime_used_once (st : RegSt) (w : WireToken) (now : Int) (ha : pickAccess w ≠ [])
+    (hneg : w.expiresIn < 0) (_hlo : -9223372036 ≤ w.expiresIn) :
+    (consume st w now).2 = .ok (pickAccess w) ∧
+    ∀ now2, now ≤ now2 → (prune now2 (consume st w now).1).toks = (prune now2 st).toks :=
+  negative_lifetime_never_reused st w now ha hneg
 
 example : consume {} ⟨strBytes "T", [], [], -5⟩ 1000 = ({ toks := [(strBytes "T", 1000 - 5 * second)] }, .ok (strBytes "T")) ∧
     prune 1000 (consume {} ⟨strBytes "T", [], [], -5⟩ 1000).1 = {} := by decide
@@ -287,40 +301,98 @@ example : pickAccess ⟨strBytes "T", [], [], 1⟩ ≠ [] ∧ (⟨strBytes "T", 
     prune 1 (consume {} ⟨strBytes "T", [], [], 1⟩ 0).1 = {} ∧
     prune 0 (consume {} ⟨strBytes "T", [], [], 1⟩ 0).1 = { toks := [(strBytes "T", second)] } := by decide
 
-/-- BEYOND ±9223372036 seconds the code's `int64` nanosecond product wraps (finding F41): a lifetime
-of −9223372037 s becomes +292 years, one of +9223372037 s (or `MaxInt64`, a server's "never expires")
-becomes negative. -/
-theorem lifetime_wraps_beyond_int64_nanoseconds :
-    lifetimeNs (-9223372037) = 9223372036709551616 ∧ lifetimeNs 9223372037 = -9223372036709551616 ∧
-    lifetimeNs 9223372036854775807 = -1000000000 ∧ lifetimeNs 18446744074 = 290448384 ∧
-    lifetimeNs (-9223372036854775808) = 0 := by decide
+-- F41: replaces `lifetime_wraps_beyond_int64_nanoseconds` (now false; kept as `lifetime_wrapped_before_F41`)
+/-- BEYOND ±9223372036 seconds (292 years: what fits into `int64` nanoseconds) the lifetime SATURATES:
+it is the bound, with the sign of `expires_in` — whatever the magnitude. -/
+theorem lifetime_saturates (n : Int) :
+    (9223372036 ≤ n → lifetimeNs n = 9223372036 * second) ∧
+    (n ≤ -9223372036 → lifetimeNs n = -9223372036 * second) := by
+  constructor
+  · intro h; rw [lifetimeNs_eq n (by omega), clampSeconds_hi n h]
+  · intro h; rw [lifetimeNs_eq n (by omega), clampSeconds_lo n h]
 
-/-- So the statement of `negative_lifetime_used_once` does NOT extend to every negative `expires_in`:
-here is an answer with a negative lifetime whose token a request 290 years later still finds cached. -/
-theorem negative_lifetime_beyond_int64_is_reused :
-    ∃ w : WireToken, w.expiresIn < 0 ∧
-      (prune (9150000000 * second) (consume {} w 0).1).toks = [(strBytes "T", 9223372036709551616)] :=
-  ⟨⟨strBytes "T", [], [], -9223372037⟩, by decide⟩
+/-- The values of `lifetime_wrapped_before_F41`, now. -/
+example : lifetimeNs (-9223372037) = -9223372036000000000 ∧ lifetimeNs 9223372037 = 9223372036000000000 ∧
+    lifetimeNs 9223372036854775807 = 9223372036000000000 ∧ lifetimeNs 18446744074 = 9223372036000000000 ∧
+    lifetimeNs (-9223372036854775808) = -9223372036000000000 := by decide
 
-/-- And a token the server declared valid for `MaxInt64` seconds is never reused at all. -/
-theorem huge_lifetime_is_not_reused :
-    ∀ now2, 0 ≤ now2 → (prune now2 (consume {} ⟨strBytes "T", [], [], 9223372036854775807⟩ 0).1).toks = [] := by
+/-- The lifetime never leaves `int64` nanoseconds, keeps the sign of `expires_in`, and grows with it: a
+server that states a longer lifetime never gets a shorter one (before F41: `9223372037` got less than `1`). -/
+theorem lifetime_sign_and_order (a b : Int) :
+    (a < 0 → lifetimeNs a ≤ -second) ∧ (0 < a → second ≤ lifetimeNs a) ∧
+    (a ≠ 0 → b ≠ 0 → a ≤ b → lifetimeNs a ≤ lifetimeNs b) := by
+  refine ⟨lifetimeNs_neg a, lifetimeNs_pos a, ?_⟩
+  intro ha hb hab
+  rw [lifetimeNs_eq a ha, lifetimeNs_eq b hb]
+  have := clampSeconds_mono a b hab
+  unfold second
+  omega
+
+/-- The bound of the clamp is `math.MaxInt64 / int64(time.Second)`: the largest number of seconds whose
+nanoseconds fit into `int64`. -/
+theorem clamp_bound_is_what_fits_int64 :
+    maxSeconds = 9223372036854775807 / second ∧ maxSeconds * second ≤ 9223372036854775807 ∧
+    9223372036854775807 < (maxSeconds + 1) * second ∧ wrap64 (maxSeconds * second) = maxSeconds * second ∧
+    wrap64 (-maxSeconds * second) = -maxSeconds * second := by decide
+
+-- F41: replaces `huge_lifetime_is_not_reused` (now false; kept as `huge_lifetime_was_not_reused_before_F41`)
+/-- A token the server declared valid for 9223372036 s or MORE (`MaxInt64`, a server's "never expires",
+included) is cached for 292 years: every later request up to then finds it. -/
+theorem huge_lifetime_is_reused (st : RegSt) (w : WireToken) (now now2 : Int) (ha : pickAccess w ≠ [])
+    (hbig : 9223372036 ≤ w.expiresIn) (h2 : now2 + second ≤ now + 9223372036 * second) :
+    (prune now2 (consume st w now).1).toks = (prune now2 st).toks ++ [(pickAccess w, now + 9223372036 * second)] := by
+  rw [later_request_sees_token_iff st w now now2 ha, (lifetime_saturates w.expiresIn).1 hbig, if_pos h2]
+
+example : pickAccess ⟨strBytes "T", [], [], 9223372036854775807⟩ ≠ [] ∧
+    (9223372036 : Int) ≤ (⟨strBytes "T", [], [], 9223372036854775807⟩ : WireToken).expiresIn ∧
+    (9150000000 * second + second ≤ 0 + 9223372036 * second) ∧
+    (prune (9150000000 * second) (consume {} ⟨strBytes "T", [], [], 9223372036854775807⟩ 0).1).toks =
+      [(strBytes "T", 9223372036 * second)] := by decide
+
+/-- The answer of `negative_lifetime_beyond_int64_was_reused_before_F41`, now: stored expired, never found. -/
+example : consume {} ⟨strBytes "T", [], [], -9223372037⟩ 0 = ({ toks := [(strBytes "T", -9223372036 * second)] }, .ok (strBytes "T")) ∧
+    (prune 0 (consume {} ⟨strBytes "T", [], [], -9223372037⟩ 0).1).toks = [] ∧
+    (prune (9150000000 * second) (consume {} ⟨strBytes "T", [], [], -9223372037⟩ 0).1).toks = [] := by decide
+
+/-! ### Before F41 (the computation the code had: `lifetimeNsBeforeF41`, no clamp) -/
+
+/-- The fix changes no lifetime within ±9223372036 s. -/
+theorem lifetime_unchanged_in_range (n : Int) (h1 : -9223372036 ≤ n) (h2 : n ≤ 9223372036) :
+    lifetimeNs n = lifetimeNsBeforeF41 n :=
+  lifetimeNs_eq_before_F41_in_range n h1 h2
+
+/-- BEYOND ±9223372036 seconds the `int64` nanosecond product wrapped (finding F41): a lifetime
+of −9223372037 s became +292 years, one of +9223372037 s (or `MaxInt64`) became negative. -/
+theorem lifetime_wrapped_before_F41 :
+    lifetimeNsBeforeF41 (-9223372037) = 9223372036709551616 ∧ lifetimeNsBeforeF41 9223372037 = -9223372036709551616 ∧
+    lifetimeNsBeforeF41 9223372036854775807 = -1000000000 ∧ lifetimeNsBeforeF41 18446744074 = 290448384 ∧
+    lifetimeNsBeforeF41 (-9223372036854775808) = 0 := by decide
+
+/-- So `negative_lifetime_never_reused` was FALSE of that computation: an answer with a negative lifetime
+whose token a request 290 years later would still have found cached (`alive`: the pruning rule). -/
+theorem negative_lifetime_beyond_int64_was_reused_before_F41 :
+    ∃ n : Int, n < 0 ∧ alive (9150000000 * second) (strBytes "T", 0 + lifetimeNsBeforeF41 n) = true :=
+  ⟨-9223372037, by decide⟩
+
+/-- And a token the server declared valid for `MaxInt64` seconds was never reused at all. -/
+theorem huge_lifetime_was_not_reused_before_F41 :
+    ∀ now2, 0 ≤ now2 → alive now2 (strBytes "T", 0 + lifetimeNsBeforeF41 9223372036854775807) = false := by
   intro now2 h
-  rw [later_request_sees_token_iff _ _ _ _ (by decide)]
-  have h1 : lifetimeNs (⟨strBytes "T", [], [], 9223372036854775807⟩ : WireToken).expiresIn = -1000000000 := by decide
+  have h1 : lifetimeNsBeforeF41 9223372036854775807 = -1000000000 := by decide
   rw [h1]
-  simp only [prune, List.filter_nil, List.nil_append]
-  rw [if_neg (by unfold second; omega)]
+  simp only [alive, decide_eq_false_iff_not]
+  unfold second; omega
 
 /-! ## The link to the transport model (C10 / C11) -/
 
 /-- `AuthTransport.finish` — the consumer as C10 and C11 model it, fed with four DECODED fields and a
-natural `expires_in` — is this consumer on every answer with `0 ≤ expires_in ≤ 9223372036`: same error,
-same token, same refresh-token rule, same expiry (milliseconds there, nanoseconds here). The theorems
-of C10/C11 therefore cover exactly the answers that decode into that range; negative and larger values
-are covered by the statements above. -/
+natural `expires_in` — is this consumer on every answer with `0 ≤ expires_in`: same error, same token,
+same refresh-token rule, same expiry (milliseconds there, nanoseconds here). The theorems of C10/C11
+therefore cover exactly the answers that decode into that range; negative values are covered by the
+statements above.
+-- F41: the upper bound `h1 : w.expiresIn ≤ 9223372036` is gone: both models clamp (`Auth.lifeOf`). -/
 theorem transport_model_finish_agrees (nowMs : Nat) (st : Auth.HostSt) (ms : List Auth.Msg) (sc : Scope.Scope)
-    (w : WireToken) (h0 : 0 ≤ w.expiresIn) (h1 : w.expiresIn ≤ 9223372036) :
+    (w : WireToken) (h0 : 0 ≤ w.expiresIn) :
     (Auth.finish nowMs st ms sc (.ok w.token w.accessToken w.refreshToken w.expiresIn.toNat)).1.refresh =
       (match adopted w with | some t => some ⟨st.host, .refresh, t⟩ | none => st.refresh) ∧
     match useToken w ((nowMs : Int) * 1000000) with
@@ -332,7 +404,7 @@ theorem transport_model_finish_agrees (nowMs : Nat) (st : Auth.HostSt) (ms : Lis
         some ⟨st.host, .access, u.access⟩ ∧
       ∃ e : Nat, (Auth.finish nowMs st ms sc (.ok w.token w.accessToken w.refreshToken w.expiresIn.toNat)).1.toks =
         st.toks ++ [⟨sc, ⟨st.host, .access, u.access⟩, e⟩] ∧ (e : Int) * 1000000 = u.expires := by
-  have hl := lifeOf_eq w h0 h1
+  have hl := lifeOf_eq w h0
   by_cases hp : pickAccess w = []
   · by_cases hr : w.refreshToken = [] <;>
       simp [Auth.finish, pickToken_eq, hp, useToken, Auth.adoptRefresh, adopted, hr]
@@ -346,7 +418,7 @@ theorem transport_model_finish_agrees (nowMs : Nat) (st : Auth.HostSt) (ms : Lis
       simp only [Int.natCast_add, Int.natCast_mul] at hl ⊢
       omega
 
-example : (0 : Int) ≤ 300 ∧ (300 : Int) ≤ 9223372036 := by decide
+example : (0 : Int) ≤ 300 ∧ (0 : Int) ≤ 9223372036854775807 := by decide
 
 /-! ## The source has the shape the model was written for (facts regenerated from the working tree) -/
 
@@ -378,7 +450,8 @@ theorem doTokenRequest_decoding_as_modelled :
 set_option maxRecDepth 20000 in
 open OciModel.Generated in
 /-- The tail of `acquireAccessToken`, statement by statement: refresh token first, `Token` before
-`AccessToken`, the error, 60 s for 0, else `time.Duration(tok.ExpiresIn) * time.Second`, one append. -/
+`AccessToken`, the error, 60 s for 0, else `time.Duration(seconds) * time.Second` with `seconds` the
+`expires_in` clamped to ±`math.MaxInt64 / int64(time.Second)` (`clampSeconds`, `maxSeconds`), one append. -/
 theorem consumer_as_modelled :
     WireToken.consumerStmtsFound = true ∧ WireToken.consumerStmts =
       ["if tok.RefreshToken != \"\" { r.refreshToken = tok.RefreshToken }",
@@ -387,7 +460,8 @@ theorem consumer_as_modelled :
        "if accessToken == \"\" { return \"\", fmt.Errorf(\"no access token found in auth server response\") }",
        "var expires time.Time",
        "now := time.Now().UTC()",
-       "if tok.ExpiresIn == 0 { expires = now.Add(60 * time.Second) } else { expires = now.Add(time.Duration(tok.ExpiresIn) * time.Second) }",
+       -- F41: the else branch was `expires = now.Add(time.Duration(tok.ExpiresIn) * time.Second)`
+       "if tok.ExpiresIn == 0 { expires = now.Add(60 * time.Second) } else { const maxSeconds = math.MaxInt64 / int64(time.Second) seconds := min(max(int64(tok.ExpiresIn), -maxSeconds), maxSeconds) expires = now.Add(time.Duration(seconds) * time.Second) }",
        "r.accessTokens = append(r.accessTokens, &scopedToken{scope: scope, token: accessToken, expires: expires})",
        "return accessToken, nil"] := by decide
 
